@@ -523,6 +523,10 @@ type boundary struct {
 	mods      bool
 }
 
+// withinDocumentedLimit: errors.go documents the symbol limit for a function as 256 local symbols
+// (ErrSymbolLimit is returned when their number EXCEEDS it): these cases declare at most 256.
+var withinLimitRe = regexp.MustCompile(`^(locals-main|locals-func|locals-block|locals-var-group|params-func|params-main)-(254|255|256)$`)
+
 func boundaryCases() []boundary {
 	var out []boundary
 	for _, n := range []int{254, 255, 256, 257, 300} {
@@ -537,6 +541,7 @@ func boundaryCases() []boundary {
 			boundary{fmt.Sprintf("captures-%d", n), rep(min(n, 250), func(i int) string { return fmt.Sprintf("v%d := %d", i, i) }, "\n") + "\nf := func() { return " + rep(min(n, 250), func(i int) string { return fmt.Sprintf("v%d", i) }, " + ") + " }\nreturn f()", false, false},
 			boundary{fmt.Sprintf("destructuring-%d", n), rep(n, func(i int) string { return fmt.Sprintf("d%d", i) }, ", ") + " := [1, 2]\nreturn d0", over, false},
 		)
+
 	}
 	for _, n := range []int{254, 255, 256, 257} {
 		over := n > 255
@@ -620,6 +625,14 @@ func boundaries(t *testing.T, rec *ev.Rec) {
 				if r.err == nil && r.pan == "" && !r.hang {
 					sig = "limit-not-rejected:" + regexp.MustCompile(`-[0-9]+$`).ReplaceAllString(b.name, "")
 					what = fmt.Sprintf("script beyond a capacity limit (%s) was not rejected with an error (%s)", b.name, o)
+				}
+			}
+			if sig == "" && withinLimitRe.MatchString(b.name) {
+				if r := compile(src, o, nil, nil); r.err != nil {
+					sig = "within-documented-limit-rejected:" + regexp.MustCompile(`-[0-9]+$`).ReplaceAllString(b.name, "")
+					what = fmt.Sprintf("script within the documented limit of 256 local symbols per function (%s) was rejected (%s): %v", b.name, o, r.err)
+				} else {
+					rec.Class("boundary-within-limit-compiles")
 				}
 			}
 			if sig != "" {
